@@ -43,9 +43,17 @@ def order_perm(nstn, vel, order):
     raise ValueError(order)
 
 
-def model(nstn, soln, vel, blockdiag=False, order='station'):
-    st = [(c, soln) for c in codes(nstn)]
-    npar = nstn * (6 if vel else 3)
+def model(nstn, soln, vel, blockdiag=False, order='station', dup=0, cancel=False):
+    """dup    : the first `dup` sites carry TWO solutions (solution numbers soln and soln + 1: a discontinuity), i.e. two
+                parameter groups and two SOLUTION/EPOCHS lines but ONE SITE/ID line each
+       cancel : some covariance lines hold values that cancel exactly (c, -c, 0 / c, c, -2c): they are not all-zero lines"""
+    st = []
+    for i, c in enumerate(codes(nstn)):
+        st.append((c, soln))
+        if i < dup:
+            st.append((c, soln + 1))
+    npar = len(st) * (6 if vel else 3)
+    nstn = len(st)
     est, sd = [], []
     for i, (c, s) in enumerate(st):
         for k, t in enumerate(TYPES6 if vel else TYPES3):
@@ -65,12 +73,20 @@ def model(nstn, soln, vel, blockdiag=False, order='station'):
         mask = np.kron(np.eye(nstn), np.ones((per, per)))
         Q = np.where(mask > 0, Q, 0.0)
     Q = (Q + Q.T) / 2
+    if cancel and npar >= 6:
+        for (i, vals) in ((3, (2.5e-7, -2.5e-7, 0.0)), (4, (1.25e-7, 1.25e-7, -2.5e-7)), (npar - 1, (-3.0e-8, 0.0, 3.0e-8))):
+            for j, v in enumerate(vals):
+                Q[i, j] = Q[j, i] = v
     # values as they survive the %21.14e text
     Q = np.array([[float('%21.14e' % v) for v in row] for row in Q])
     est = [float('%21.14e' % v) for v in est]
     sd = [float('%11.5e' % v) for v in sd]
     heights = [100.5 + 37.5 * i for i in range(nstn)]
-    m = {'stations': st, 'vel': vel, 'est': est, 'sd': sd, 'Q': Q, 'heights': heights}
+    sites = []
+    for c, s in st:
+        if c not in sites:
+            sites.append(c)
+    m = {'stations': st, 'sites': sites, 'vel': vel, 'est': est, 'sd': sd, 'Q': Q, 'heights': heights}
     if order != 'station':
         perm = order_perm(nstn, vel, order)
         pl = param_list(m)
@@ -125,7 +141,7 @@ def write(path, m, tri='L', extra=False):
         L += ['+FILE/REFERENCE', ' DESCRIPTION        gpmc synthetic solution', ' SOFTWARE           none', '-FILE/REFERENCE', SEP]
     L += ['+FILE/COMMENT', '* synthetic solution generated by gpmc.snxgen', '* second comment line 12 00012 V',
          '-FILE/COMMENT', SEP, '+SITE/ID', '*CODE PT __DOMES__ T _STATION DESCRIPTION__ APPROX_LON_ APPROX_LAT_ _APP_H_']
-    for i, (c, s) in enumerate(m['stations']):
+    for i, c in enumerate(m.get('sites') or [c for c, s in m['stations']]):
         lon, lat = site_lonlat(i)[:2]
         L.append(' %4s %2s %9s %1s %-22s %11s %11s %7.1f' % (c, 'A', domes(i), 'P', 'Stn %s Australia' % c, lon, lat, m['heights'][i]))
     L += ['-SITE/ID', SEP, '+SOLUTION/EPOCHS', '*CODE PT SOLN T _DATA_START_ __DATA_END__ _MEAN_EPOCH_']
